@@ -250,6 +250,33 @@ func AmbiguousUPCA() []string {
 	return ambNums
 }
 
+// dmGS1Op: a GS1 Data Matrix symbol (FNC1 in first position, a second FNC1 as separator after
+// four digits - result offsets 0 and 5), built from codewords by the reference construction because
+// the library's writer emits no FNC1.  Text, raw bytes and the symbology identifier ]d2 are the
+// same on every call.
+func dmGS1Op(r *fw.Rand) Op {
+	a, b, c := 130+r.Intn(100), 130+r.Intn(100), 130+r.Intn(100)
+	letter := byte('A' + r.Intn(26))
+	scale := 2 + r.Intn(3)
+	return Op{"dm-gs1", func() string {
+		var sym dmref.Symbol
+		for _, s := range dmref.Symbols() {
+			if s.Rows == 14 && s.Cols == 14 {
+				sym = s
+			}
+		}
+		data := []byte{232, byte(a), byte(b), 232, byte(c), letter + 1, 129, dmref.Pad253(8)}
+		m := dmref.BuildMatrix(sym, data)
+		bmp, _ := gozxing.NewBinaryBitmapFromImage(grayFromBools(m, scale, 2))
+		res, err := datamatrix.NewDataMatrixReader().Decode(bmp, map[gozxing.DecodeHintType]interface{}{gozxing.DecodeHintType_PURE_BARCODE: true})
+		out := canon(res, err)
+		if err != nil || !strings.Contains(out, "]d2") {
+			return "APRIORI-MISMATCH dm-gs1: a symbol with FNC1 in first position is reported with the symbology identifier ]d2 whenever it is read alone; here -> " + clip(out)
+		}
+		return "dm-gs1 -> " + out
+	}}
+}
+
 // reuseOp: ONE reader instance of a goroutine reads a symbol under a decode hint and then another
 // symbol without hints; the second answer must be what a fresh instance gives (instances are
 // reusable, and a hint is an argument of the call it is passed to).
@@ -317,6 +344,10 @@ func BuildOps(r *fw.Rand, n int) []Op {
 	for len(ops) < n {
 		if r.Intn(10) == 0 {
 			ops = append(ops, reuseOp(r))
+			continue
+		}
+		if r.Intn(25) == 0 {
+			ops = append(ops, dmGS1Op(r))
 			continue
 		}
 		switch k := r.Intn(21); {
